@@ -3,13 +3,13 @@ CONSTANTS
   N = 3
   MaxTime = 0
   MaxSkew = 0
-  Budget = 1
+  Budget = 0
   Variant = "design"
   Faults <- NoFaults
   MaxToggle = 0
   Removal = FALSE
   Remotes <- RemotesNone
-  MaxWaits = 2
+  MaxWaits = 99
   HistMax = 0
   Emit = FALSE
   MaxAtt = 1
